@@ -17,8 +17,8 @@ import (
 	"github.com/llir/llvm/vhook"
 
 	"verif/fw"
-	"verif/irwalk"
 	"verif/gen"
+	"verif/irwalk"
 )
 
 func init() { Registry["C12"] = Prop{Run: runC12, Replay: replayC12} }
@@ -497,7 +497,16 @@ func c12ops(tmp string) []c12op {
 		ops = append(ops, mk("ParseString("+in.name+")", i, func(t string) (*ir.Module, error) { return asm.ParseString("x.ll", t) }))
 	}
 	ops = append(ops,
-		mk("ParseBytes(A)", 0, func(t string) (*ir.Module, error) { return asm.ParseBytes("x.ll", []byte(t)) }),
+		mk("ParseBytes(A), caller's buffer overwritten afterwards", 0, func(t string) (*ir.Module, error) {
+			b := []byte(t)
+			m, err := asm.ParseBytes("x.ll", b)
+			// the caller owns the buffer again when ParseBytes has returned (a loop reading
+			// successive inputs into one buffer): the module must not depend on it.
+			for i := range b {
+				b[i] = 'X'
+			}
+			return m, err
+		}),
 		mk("Parse(reader,all)(A)", 0, func(t string) (*ir.Module, error) { return asm.Parse("x.ll", &slowReader{data: []byte(t)}) }),
 		mk("Parse(reader,1byte)(B)", 1, func(t string) (*ir.Module, error) {
 			return asm.Parse("x.ll", &slowReader{data: []byte(t), mode: "byte"})
@@ -539,6 +548,7 @@ func c12histories(c *fw.Check, depth int, ref map[string]string) {
 		if len(hist) > 0 {
 			// replay the whole history in this (long-lived) process.
 			var last *ir.Module
+			var lastText string
 			var names []string
 			for _, oi := range hist {
 				op := ops[oi]
@@ -548,8 +558,15 @@ func c12histories(c *fw.Check, depth int, ref map[string]string) {
 					text = c12inputs[op.in].text
 				}
 				out, m := op.run(text, last)
-				if m != nil {
+				if m != nil && op.in >= 0 {
 					last = m
+					lastText = ""
+					if strings.HasPrefix(out, "OK\n") {
+						lastText = strings.TrimPrefix(out, "OK\n")
+						if i := strings.Index(lastText, "\n; structure digest"); i >= 0 {
+							lastText = lastText[:i]
+						}
+					}
 				}
 				c.Step(1)
 				if op.in >= 0 {
@@ -561,6 +578,8 @@ func c12histories(c *fw.Check, depth int, ref map[string]string) {
 					// print of the last module must equal what that parse printed.
 					if strings.HasPrefix(out, "PANIC") {
 						c.Violation("history/print-panic", c12case{Part: "history", History: names, Got: out, What: "printing an earlier module panics"})
+					} else if lastText != "" && strings.TrimPrefix(out, "PRINT\n") != lastText {
+						c.Violation("history/print-differs-later", c12case{Part: "history", History: names, Want: fw.Trunc(lastText, 1500), Got: fw.Trunc(out, 1500), What: "a module prints differently later in the process than right after it was parsed"})
 					}
 				}
 			}
